@@ -361,6 +361,17 @@ def run(ctx):
         parses = [(bi, t) for bi, t in parses if "watchexec_signals::Signal" in (t.callee.full or "")]
         ctx.require(len(parses) == 2, "R19.6", "both-parse-signal", "both sides go through str::parse::<Signal>", p.loc(p.line),
                     detail=str(len(parses)))
+        # THIR form (polarity-safe): `to` empty => None, otherwise Some(parse::<Signal>(to)?)
+        from .. import pathx as _px19
+        ifs19 = [n for n in thir.find(thir.root(p), "if") if _px19.if_parts(n)[0] == "str::is_empty(to)"]
+        ok19 = False
+        d19 = ""
+        if len(ifs19) == 1:
+            _, t19, e19 = _px19.if_parts(ifs19[0])
+            d19 = "%s / %s" % (_px19.desc(t19), _px19.desc(e19)[:80])
+            ok19 = _px19.desc(t19) == "None" and _px19.desc(e19).startswith("Some{0: ") and "str::parse(to)" in _px19.desc(e19)
+        ctx.require(ok19, "R19.6", "empty-none-thir", "an empty right-hand side maps to None, a non-empty one to Some(its parsed signal)", p.loc(p.line), detail=d19,
+                    fail="--map-signal no longer maps `SIG:` to None and `SIG:OTHER` to Some(OTHER) (%s)" % d19)
         emp = call_sites(p, "core::str::<impl str>::is_empty", "str::is_empty")
         ctx.require(len(emp) == 1, "R19.6", "empty-test", "the right-hand side is tested with is_empty", p.loc(p.line))
         if emp and len(parses) == 2:
